@@ -16,6 +16,11 @@
 //     operation all live patterns, the detector total and the misuse-callback count are compared.
 //   * ASan/UBSan: every byte of the requested extent is written (blocks above 4 MiB: both ends + stride).
 //
+// Configuration dimensions of every scenario: which overload set is active (default or THREAD-SAFE new/delete/malloc
+// overloads, driven from one thread; no misuse is generated, only allocation failure) and whether recording
+// TestMemoryAllocators are installed. Simulated out-of-memory through the C interface (cpputest_malloc_set_out_of_memory,
+// expired countdown) is exercised under both overload sets, realloc of NULL and of live blocks included.
+//
 // Nothing in the monitored window allocates through operator new: all monitor state is static / shared.
 #include "verif.h"
 #include <new>
@@ -410,13 +415,15 @@ static bool judge_block(int ep, char* p, size_t n, int skip_slot) {
     return ok;
 }
 
+static bool c_oom_now() { return getCurrentMallocAllocator() == NullUnknownAllocator::defaultAllocator(); }
 static void note_outcome(int ep, Out o, size_t n, bool fault_here) {
     pcf("outcome:%s:%s", EP_NAME[ep], OUT_NAME[o]);
+    pcf("requests:%s-overloads:%s", g_cfg.threadsafe ? "threadsafe" : "default", EP_NAME[ep]);
+    if (g_oom_active || c_oom_now()) pcf("c_oom_request:%s-overloads:%s:%s", g_cfg.threadsafe ? "threadsafe" : "default", EP_NAME[ep], OUT_NAME[o]);
     char cls[40]; bool near; size_class(n, cls, sizeof cls, &near);
     if (g_cfg.fault_kind >= 0) { if (fault_here) psig("%s:%s:fault%d:%s:%ld", EP_NAME[ep], cls, g_cfg.fault_kind, g_section, g_cfg.fault_k); }
     else if (near) psig("%s:%s", EP_NAME[ep], cls);
 }
-static bool c_oom_now() { return getCurrentMallocAllocator() == NullUnknownAllocator::defaultAllocator(); }
 // was the injected fault consumed by the operation that just ended?  (a0: allocator-level call index before the operation)
 static bool fault_here(long a0, int fam) {
     switch (g_cfg.fault_kind) {
@@ -605,8 +612,8 @@ static void body() {
             const Step& s = g_steps[i];
             g_cur_step = i;
             switch (s.op) {
-            case OP_ALLOC: if (g_oom_active && g_cfg.fault_kind == 2 && s.ep == EP_REALLOC_NULL) pc("obs_realloc_skipped_while_c_out_of_memory"); else do_alloc(i); break;
-            case OP_REALLOC: if (g_oom_active && g_cfg.fault_kind == 2) pc("obs_realloc_skipped_while_c_out_of_memory"); else do_realloc(i); break;
+            case OP_ALLOC: do_alloc(i); break;
+            case OP_REALLOC: do_realloc(i); break;      // also while the countdown has expired: realloc of a live block must then fail cleanly like malloc
             case OP_FREE: do_free(s.slot); break;
             case OP_OOM_ON: cpputest_malloc_set_out_of_memory(); g_oom_active = true; break;
             case OP_OOM_OFF: oom_off(); break;
@@ -985,7 +992,7 @@ static void sec_fault(vf::Ctx& c) {
 static const size_t OOM_SIZES[] = { 0, 1, 24, 4096 };
 static const int OOM_EPS[] = { EP_MALLOC, EP_CALLOC, EP_STRDUP, EP_STRNDUP, EP_REALLOC_NULL, EP_REALLOC, EP_NEW, EP_NEWA_NT };
 static void sec_c_oom(vf::Ctx& c) {
-    size_t n = OOM_SIZES[c.idx % 4]; int ep = OOM_EPS[(c.idx / 4) % 8]; bool rec = ((c.idx / 32) & 1) != 0;
+    size_t n = OOM_SIZES[c.idx % 4]; int ep = OOM_EPS[(c.idx / 4) % 8]; bool rec = ((c.idx / 32) & 1) != 0, ts = ((c.idx / 64) & 1) != 0;
     S_clear(); S_victims();
     S_add(OP_ALLOC, EP_MALLOC, 0, 50);
     S_add(OP_OOM_ON, 0, 0, 0);
@@ -995,9 +1002,9 @@ static void sec_c_oom(vf::Ctx& c) {
     else S_add(OP_ALLOC, ep, 1, n);
     S_add(OP_OOM_OFF, 0, 0, 0);
     S_add(OP_ALLOC, EP_MALLOC, 2, 12);
-    g_note = std::string(EP_NAME[ep]) + "(" + std::to_string(n) + ") while cpputest_malloc_set_out_of_memory() is in force";
-    g_section = "c-oom"; g_sig_mode = 0; g_case_sig = std::string("c-oom:") + EP_NAME[ep] + ":" + std::to_string(n) + (rec ? ":rec" : "");
-    g_cfg = Cfg{ false, rec, -1, 0, 1 };
+    g_note = std::string(EP_NAME[ep]) + "(" + std::to_string(n) + ") while cpputest_malloc_set_out_of_memory() is in force, " + (ts ? "thread-safe" : "default") + " overloads";
+    g_section = "c-oom"; g_sig_mode = 0; g_case_sig = std::string("c-oom:") + EP_NAME[ep] + ":" + std::to_string(n) + (rec ? ":rec" : "") + (ts ? ":ts" : "");
+    g_cfg = Cfg{ ts, rec, -1, 0, 1 };
     c.begin([] { return describe(); });
     execute(c, ep == EP_REALLOC || ep == EP_REALLOC_NULL);
 }
@@ -1028,7 +1035,7 @@ int main(int argc, char** argv) {
         { "sweep_2048_sizes_below_the_top64", g_top.size() * EP_N, g_top.size() * EP_N, sec_sweep_top, true },
         { "calloc_lattice", g_cpairs.size(), g_cpairs.size(), sec_calloc, true },
         { "strdup_lattice", (SD_LEN + 8) * SD_LIM, (SD_LEN + 8) * SD_LIM, sec_strdup, true },
-        { "c_out_of_memory", 64, 64, sec_c_oom, true },
+        { "c_out_of_memory", 128, 128, sec_c_oom, true },      // 4 sizes x 8 entry points x recording allocators x overload set
         { "sweep_4097_to_65536", 2000, MID_N, sec_sweep_mid, false },
         { "fault_enumeration", 16ull * KMAX * NKIND, 200ull * KMAX * NKIND, sec_fault, false },
         { "random_scripts", 8000, 200000, sec_random, false },
